@@ -692,6 +692,212 @@ def run_explore(ctx, tg):
                                             coll_symmetric=COLL_SYMMETRIC, coll_local=COLL_LOCAL, wake_additive=WAKE_ADDITIVE)
 
 
+# ----------------------------------------------------------------------------- request sequences in one process
+
+def pp_band_violation(n, f0, fmax, nc, pp, fs):
+    """the explored parallel-plates bands (PP_NEAR_FS_BANDS / PP_SUPPRESSED_BANDS) on one pair of vectors on the same
+    grid: (clause, text, index, observed, expected) of the first sample outside its band, or None; and how many samples
+    fell into a band"""
+    delta = Fraction(fmax) / Fraction(f0) / (n - 1)
+    used = 0
+    for i in range(1, n // 2 + 1):
+        x = float(i * delta) / nc
+        a, b = (float(pp[i][0]), float(pp[i][1])), (float(fs[i][0]), float(fs[i][1]))
+        band = [bd for bd in PP_NEAR_FS_BANDS if bd[0] <= x < bd[1]]
+        sup = [bd for bd in PP_SUPPRESSED_BANDS if bd[0] <= x < bd[1]]
+        if band and math.hypot(*b) > 0:
+            used += 1
+            d = math.hypot(a[0] - b[0], a[1] - b[1]) / math.hypot(*b)
+            if d > band[0][2]:
+                return ("pp-to-fs", "parallel plates does not tend to free space at %.3g times the shielding cutoff" % x, i,
+                        dict(pp=a, fs=b, rel=d), "relative difference <= %g for %g <= x < %g" % (band[0][2], band[0][0], band[0][1])), used
+        elif sup:
+            used += 1
+            if a[0] > sup[0][2] * b[0]:
+                return ("pp-suppressed", "parallel plates is not suppressed at %.3g times the shielding cutoff" % x, i,
+                        dict(pp=a, fs=b), "Re Z_pp <= %g Re Z_fs for %g <= x < %g" % (sup[0][2], sup[0][0], sup[0][1])), used
+    return None, used
+
+
+def sequence_cases(ctx, count):
+    """Request sequences for ONE process: a base request, the same request with one argument changed at a time (same
+    sampling, another gap; same gap, another sampling; ...), the base request again - for each model class, for the
+    factory (called twice in a row, as main() does for the wake and for the radiated spectrum) and mixed.  A result kept
+    from an earlier call under an incomplete key, or any other state that outlives a call, answers one of the later
+    requests with the value of an earlier one."""
+    rng = ctx.rng
+    seqs = []
+
+    def mut(p, key, val):
+        q = dict(p)
+        q[key] = val
+        return q
+
+    def pp_seq(n):
+        # the narrow gap's cutoff above the whole grid (every sample suppressed), the wide gap's far below it (free-space limit)
+        # (inside the domain the explored bands were observed on: gaps 4..100 mm, R/g <= 4000, g/R <= 0.2)
+        R = loguni(rng, 1.0, 10.0)
+        gn = loguni(rng, 0.004, 0.005)
+        f0 = f32(C_LIGHT / (2 * math.pi * R))
+        fmax = f32(f0 * cutoff_harmonic(R, gn) * rng.uniform(0.10, 0.14) * (n - 1) / (n // 2))
+        gw = rng.uniform(0.09, 0.1)
+        base = dict(f0=f0, fmax=fmax, g=gn)
+        ps = [base, mut(base, "g", gw), mut(base, "g", gn * 1.5), mut(base, "g", gw * 0.75), base, mut(base, "g", gw)]
+        reqs = [("pp", n, p) for p in ps]
+        reqs.insert(rng.randint(0, 2), ("fs", n, dict(frev=f0, fmax=fmax)))       # the free-space reference on the same grid
+        return "pp-gap", reqs
+
+    def pp_sampling_seq(n):
+        base = model_params(rng, "pp")
+        ps = [base, mut(base, "fmax", f32(base["fmax"] * 1.25)), base, mut(base, "f0", f32(base["f0"] * 0.5)), base]
+        reqs = [("pp", n, p) for p in ps] + [("pp", n + 1, base), ("pp", n, base)]
+        return "pp-sampling", reqs
+
+    def closed_seq(kind, n):
+        base = model_params(rng, kind)
+        reqs = [(kind, n, base)]
+        for key in sorted(base):
+            v = base[key]
+            # the changed argument stays inside the model's domain (xi >= -1, inner < outer)
+            nv = f32(v * 1.5) if key in ("fmax", "frev", "f0", "re", "im") else v + 0.5 if key == "xi" else v * 0.75 if key == "inner" else \
+                (v * 1.5 if v != 0 else 0.5)
+            reqs.append((kind, n, mut(base, key, nv)))
+        reqs.append((kind, n, base))
+        reqs.append((kind, n + 2, base))
+        reqs.append((kind, n, base))
+        return kind + "-args", reqs
+
+    def factory_seq(n, k):
+        g = dyadic(rng, 0.004, 0.05)
+        R = dyadic(rng, 1.0, 10.0)
+        f0 = C_LIGHT / (2 * math.pi * R)
+        base = dict(fmax=f32(f0 * cutoff_harmonic(R, g) * rng.uniform(0.5, 3.0)), R=R, frev=dyadic(rng, 1e5, 3e7), gap=g, use_csr=True,
+                    s=dyadic(rng, 1e4, 6e7), xi=0.0, rc=g / 2 * 0.5)
+        fd = [(f32(rng.uniform(0, 300)), f32(rng.uniform(-300, 300))) if i <= n // 2 else (0.0, 0.0) for i in range(n)]
+        fd2 = [(f32(a + 1), b) for a, b in fd]
+        steps = [(base, None), (base, None),                                   # twice in a row, as main() does
+                 (mut(base, "gap", g * 4), None), (mut(base, "gap", -g), None), (base, None),
+                 (mut(base, "use_csr", False), None), (mut(base, "s", 0.0), None), (mut(base, "rc", 0.0), None),
+                 (base, fd), (base, fd2), (base, None), (mut(base, "R", R * 2), None), (base, None),
+                 (mut(base, "gap", 0.0), None), (base, None)]                 # nothing selected (no impedance), then the base again
+        if k % 2:
+            steps = steps[:2] + [steps[2], steps[4], steps[8], steps[9], steps[10], steps[13], steps[14]]
+        return "factory", [("factory", n, p, f) for p, f in steps]
+
+    def mixed_seq(n):
+        reqs = []
+        ppb = model_params(rng, "pp")
+        for kind in ("fs", "pp", "rw", "coll", "const", "pp", "fs"):
+            p = model_params(rng, kind)
+            if kind in ("fs", "pp"):
+                p = dict(p, fmax=ppb["fmax"])
+                p = dict(p, frev=ppb["f0"]) if kind == "fs" else dict(p, f0=ppb["f0"])
+            reqs.append((kind, n, p))
+        return "mixed", reqs
+
+    plan = [lambda: pp_seq(rng.randint(33, 65)), lambda: pp_sampling_seq(rng.randint(8, 40)),
+            lambda: closed_seq("fs", rng.randint(3, 40)), lambda: closed_seq("rw", rng.randint(3, 40)),
+            lambda: closed_seq("coll", rng.randint(3, 40)), lambda: closed_seq("const", rng.randint(3, 40)),
+            lambda: factory_seq(rng.randint(16, 48), 0), lambda: factory_seq(rng.randint(16, 48), 1),
+            lambda: mixed_seq(rng.randint(8, 40)), lambda: pp_seq(rng.randint(8, 32))]
+    for k in range(count):
+        name, reqs = plan[k % len(plan)]()
+        cs = []
+        for j, r in enumerate(reqs):
+            cid = "q%d_%d" % (k, j)
+            cs.append(FCase(cid, r[1], r[2], r[3], dict(sequence=name)) if r[0] == "factory" else MCase(cid, r[0], r[1], r[2]))
+        seqs.append((name, cs))
+        ctx.count("sequence:" + name)
+    return seqs
+
+
+def run_sequences(ctx, tg, tmp, only=None):
+    """Each sequence is answered by ONE process of the harness, request after request; every distinct request is also put
+    to a process of its own.  Oracle (the property holds per request, whatever was asked before): the two answers are the
+    same, bit for bit, in every printed field; plus the shape oracle on every answer and the explored parallel-plates
+    bands on the answers of a gap sequence (against the free-space vector of the same grid from the same process)."""
+    from concurrent.futures import ThreadPoolExecutor
+    seqs = only if only is not None else sequence_cases(ctx, 10 if ctx.quick() else 60)
+    for name, cs in seqs:
+        write_files([c for c in cs if isinstance(c, FCase)], tmp)
+    # a request is identified by its text without the case id
+    def body(c):
+        return c.impl_text().split(" ", 2)[0] + " " + c.impl_text().split(" ", 2)[2]
+    distinct = {}
+    for name, cs in seqs:
+        for c in cs:
+            distinct.setdefault(body(c), c)
+
+    def fresh(c):
+        rc, out, err = run_driver(tg["impl_imp"], c.impl_text(), timeout=600)
+        return rc, parse_cases(out).get(c.cid), err[-300:]
+    with ThreadPoolExecutor(max_workers=6) as ex:
+        fresh_res = dict(zip(distinct, ex.map(fresh, distinct.values())))
+    for si, (name, cs) in enumerate(seqs):
+        seqrep = dict(kind="sequence", name=name, requests=[c.replay() for c in cs])
+        rc, out, err = run_driver(tg["impl_imp"], "".join(c.impl_text() for c in cs), timeout=1200)
+        got = parse_cases(out)
+        bad = False
+        for j, c in enumerate(cs):
+            frc, want, ferr = fresh_res[body(c)]
+            mine = got.get(c.cid)
+            model = getattr(c, "kind", "factory")
+            if frc != 0 or want is None:
+                ctx.violation("impl-oracle", "a single %s request kills the process (rc=%d)" % (model, frc), case=dict(seqrep, failing_index=j),
+                              observed=ferr, sig=dict(kind="sequence", clause="crash", model=model))
+                bad = True
+                break
+            if mine is None:
+                ctx.violation("impl-oracle", "request %d (%s) of a sequence in one process gets no answer (rc=%d) although a fresh process answers it" % (j, model, rc),
+                              case=dict(seqrep, failing_index=j), observed=err[-300:], sig=dict(kind="sequence", clause="crash", model=model))
+                bad = True
+                break
+            if mine != want:
+                tag = [t for t in want if mine.get(t) != want[t]] + [t for t in mine if t not in want]
+                t0 = tag[0]
+                a, b = (mine.get(t0) or [[]])[0], (want.get(t0) or [[]])[0]
+                idx = [i for i in range(max(len(a), len(b))) if i >= len(a) or i >= len(b) or a[i] != b[i]][:1]
+                same_as = [i for i in range(j) if got.get(cs[i].cid, {}).get(t0) == mine.get(t0) and body(cs[i]) != body(c)]
+                ctx.violation("impl-oracle", "request %d (%s) of a sequence in one process is not answered as a fresh process answers the same request%s"
+                              % (j, model, " - it gets the answer of request %d" % same_as[-1] if same_as else ""),
+                              case=dict(seqrep, failing_index=j),
+                              observed=dict(field=t0, first_bad_token=idx, in_sequence=a[idx[0]:idx[0] + 4] if idx else a[:4], same_as_earlier_request=same_as[-1:]),
+                              expected=dict(fresh_process=b[idx[0]:idx[0] + 4] if idx else b[:4]),
+                              sig=dict(kind="sequence", clause="history", model=model))
+                bad = True
+                break
+        # the property's own clauses on the answers of the sequence
+        fsref = {}
+        for c in cs:
+            r = got.get(c.cid)
+            if r is None or isinstance(c, FCase):
+                continue
+            c.v = cvec(r["vec"][0])
+            zero_from = c.n // 2 if c.kind in ("coll", "const") else c.n // 2 + 1
+            c.ok = shape_oracle(ctx, c, c.v, int(r["vec_n"][0][0]), int(r["vec_n"][0][1]), zero_from, "model " + c.kind + " (inside a request sequence)")
+            if c.kind == "fs" and c.ok:
+                fsref[(c.n, c.p["frev"], c.p["fmax"])] = c.v
+        used_total = 0
+        if name == "pp-gap":
+            for j, c in enumerate(cs):
+                ref = fsref.get((c.n, c.p.get("f0"), c.p["fmax"])) if getattr(c, "kind", "") == "pp" else None
+                if ref is None or not getattr(c, "ok", False) or not finite(c.v):
+                    continue
+                R = C_LIGHT / (2 * math.pi * c.p["f0"])
+                vio, used = pp_band_violation(c.n, c.p["f0"], c.p["fmax"], cutoff_harmonic(R, c.p["g"]), c.v, ref)
+                used_total += used
+                if vio:
+                    clause, text, i, obs, exp = vio
+                    ctx.violation("impl-oracle", text + " (request %d of a sequence of gaps on one sampling)" % j, case=dict(seqrep, failing_index=j, index=i),
+                                  observed=obs, expected=exp, sig=dict(kind="sequence", clause=clause, model="pp"))
+                    break
+        ctx.case_done(("sequence", si), len(cs) >= 3 and (name != "pp-gap" or used_total > 0))
+        if si == 0 and only is None:
+            ctx.sample(dict(kind="sequence", name=name, length=len(cs), first_request=cs[0].replay()))
+    ctx.extra["request_sequences"] = dict(sequences=len(seqs), requests=sum(len(cs) for _, cs in seqs), distinct_requests_put_to_a_fresh_process=len(distinct))
+    return seqs
+
+
 def project_coqchk(ctx, coq):
     """Thorough tier.  The recursive `coqchk -o` of vp_coq re-checks every library the property file depends on; with
     Interval (Coquelicot, Flocq, mathcomp, the Reals) that takes more than 35 minutes here - beyond vp_coq's 1500 s limit,
@@ -752,6 +958,7 @@ def run(ctx):
         run_models(ctx, tg, dis)
         run_factory(ctx, tg, dis, tmp)
         run_sums(ctx, tg, dis)
+        run_sequences(ctx, tg, tmp)
         run_explore(ctx, tg)
     finally:
         shutil.rmtree(tmp, ignore_errors=True)
@@ -762,7 +969,13 @@ def run(ctx):
     # implementation, relational validation of all values, every oracle - shows no disagreement and no violation, the
     # property is shown through tie 2 as in the round before the translator existed, and the downgrade is recorded.
     failed = [g for g, st in coq["gen"].items() if st.startswith("failed")]
-    if failed == ["Gen_Imp"] and coq["make_ok"] and coq["props"]["ok"] and not coq["forbidden"] and coq["extract_ok"] \
+    # Not downgraded: a refusal because of state that outlives a call (static locals, non-const variables outside the
+    # functions).  The generated definitions are functions of the arguments; no finite set of request sequences shows that
+    # code with such state behaves like one (imp_functions_pure).
+    stateful = any("outlives the call" in coq["gen"].get(g, "") for g in failed)
+    if stateful:
+        ctx.notes.append("Gen_Imp: the translator refuses state that outlives a call; this failure is never downgraded to tie 2")
+    if failed == ["Gen_Imp"] and not stateful and coq["make_ok"] and coq["props"]["ok"] and not coq["forbidden"] and coq["extract_ok"] \
             and not dis and not ctx.violations and ctx.evaluations > 0:
         ctx.extra["translators"]["Gen_Imp"] = "downgraded-to-correspondence (" + coq["gen"]["Gen_Imp"][:200] + ")"
         ctx.notes.append("Gen_Imp: translator failed; the last-good generated definitions and the hand-written model agree with the "
@@ -795,5 +1008,23 @@ def replay(ctx, rp):
         finally:
             shutil.rmtree(tmp, ignore_errors=True)
         conclude(ctx, coq, dis)
+    elif case.get("kind") == "sequence":
+        ctx.rule = "replay of one recorded sequence of requests in one process, each compared with a fresh process"
+        coq = checked(ctx)
+        tg = ctx.build(harness=("impl_imp",))
+        tmp = tempfile.mkdtemp(prefix="c16_")
+        try:
+            cs = []
+            for j, r in enumerate(case["requests"]):
+                p = {k: fx(v) for k, v in r["params"].items()}
+                if r["kind"] == "factory":
+                    fd = None if r.get("file") is None else [(float.fromhex(a), float.fromhex(b)) for a, b in r["file"]]
+                    cs.append(FCase("q0_%d" % j, r["n"], p, fd, r.get("tags")))
+                else:
+                    cs.append(MCase("q0_%d" % j, r["model"], r["n"], p))
+            run_sequences(ctx, tg, tmp, only=[(case.get("name", "replay"), cs)])
+        finally:
+            shutil.rmtree(tmp, ignore_errors=True)
+        conclude(ctx, coq, [])
     else:
         run(ctx)
